@@ -3,14 +3,16 @@
 Spaces (DESIGN.md section 4, C18):
   ket     : W(n), GHZ(n), Bell(i), maximally_entangled_state(d), maximally_coherent_state(d, return_dm in {F,T}),
             Dicke(*klist) for ALL klists of every (dim, num_qudit) in the bound, Wtype(coeff) on the complete coefficient
-            lattice A^n \\ {0} (+ generic atoms, dtype variants); integer arguments as python int and numpy int64.
+            lattice A^n \\ {0} (+ generic atoms, dtype variants); integer arguments as python int, numpy int64 and numpy int32
+            (np.int8 / np.uint8 whose result dimension exceeds the type range: recorded in counters only); default arguments GHZ(), Bell(),
+            get_tetrahedron_POVM(), load_upb(kind) once each against the explicit call.
   dm      : Werner(d,a), Isotropic(d,a), maximally_mixed_state(d), get_2qutrit_Antoine2022(q), get_bes2x4/3x3_Horodecki1997
             on parameter grids that contain both end points, every documented threshold, the two neighbouring floats of every
             threshold/end point, +-1e-9, +-1e-6, +-1e-3 around them and a uniform grid; python float and numpy float64.
   closed  : get_{Werner,Isotropic}_{ree,eof,GME}(d, a) on the same grids, scalar and array arguments.
   upb     : load_upb(kind, args, return_product in {F,T}, return_bes in {F,T}) for every kind, every admissible size argument
             up to the bound, three spellings of the kind (case-insensitive), the sixparam angle lattice, args=None under the
-            entropy seam.
+            entropy seam; the public entry points get_upb_product(list) and upb_to_bes(list | product array) on what load_upb returned.
   povm    : get_tetrahedron_POVM(n); get_chebshev_orthonormal(d, alpha, with_computational_basis, return_basis).
   gme     : get_qubit_dicke_state_GME(n,k) for all 0<=k<=n; get_Wtype_state_GME on the normalised integer-triple lattice.
 
@@ -18,6 +20,8 @@ Oracle (plain numpy, written here): documented type/shape; unit norm; Hermitian,
 object built by explicit loops over basis strings; return_dm == projector of the ket; UPB: unit local vectors, orthonormal
 products, BES == (1 - sum |v><v|)/(D-N), PSD, rank D-N, PPT over EVERY bipartition of the parties, and *exact* unextendibility
 (finite combinatorial criterion: no assignment of the members to the parties leaves every party with a rank-deficient local set);
+Horodecki 1997 2x4 / 3x3 families == the paper's convex decomposition built from |ij><kl| terms, 3x3 family violates the realignment
+criterion for 0<a<1; get_2qutrit_Antoine2022(q) == Horodecki 1999 family at alpha = 5/2 + q (either party order, the same for all q);
 POVM elements PSD and summing to 1, regular-tetrahedron Bloch vectors, product structure; each Chebyshev basis orthonormal and equal
 to the cosine formula, projectors == |row><row|, each block of d projectors sums to 1; closed forms: exactly 0 on the
 separable range, equal to literature formulas evaluated on the overlap measured from the *returned matrix* (Tr rho F, <Phi|rho|Phi>),
@@ -59,9 +63,10 @@ LEVEL = 'model_checking'
 RULE = ('mode P: case = (constructor family, size argument); inside a case the complete argument lattice is executed (all klists, '
         'all coefficient patterns, all grid parameters incl. both end points and the floats adjacent to every threshold, all option '
         'combinations return_dm / return_product x return_bes / with_computational_basis x return_basis, all spellings of the kind, '
-        'python and numpy scalar types). state = one (constructor, argument point, option combination); transition = one numqi call '
+        'python and numpy (int64, int32, float64) scalar types, every default argument once). state = one (constructor, argument point, option combination); transition = one numqi call '
         'whose complete return value was compared with the oracle; trace = one option path on one argument point compared in '
-        'lock-step (ket -> return_dm projector; list -> product -> BES; projectors -> return_basis; scalar -> array evaluation); '
+        'lock-step (ket -> return_dm projector; list -> product -> BES -> get_upb_product / upb_to_bes called directly; projectors -> '
+        'return_basis; scalar -> array evaluation; default call -> explicit call); '
         'non-trivial = returned object has at least two entries of different modulus or a non-zero closed-form value')
 ASSUMPTIONS = [
     'reference = textbook objects built by explicit loops over basis strings (W, GHZ, Dicke, |Phi_d>, swap operator, antisymmetric '
@@ -76,6 +81,17 @@ ASSUMPTIONS = [
     'sixparam angles whose gamma/theta are multiples of pi/2 are documented not to give a UPB and are excluded from the lattice',
     'zero-qudit Dicke states, Wtype of the zero vector, genshifts with one party (empty complement), d=1 Chebyshev bases are outside the domain',
     'for Dicke states the closest product state is symmetric (Huebener et al. 2009); used for the lower lattice bound only as a consistency check',
+    'get_bes2x4/3x3_Horodecki1997: reference = convex decomposition of P. Horodecki, Phys. Lett. A 232 (1997) 333 (rho_insep + |Psi_a><Psi_a|), '
+    'not the printed matrix; the entry sqrt(1-a^2)/2 is compared with its conditioning 1/sqrt(1-a^2) in a',
+    'get_2qutrit_Antoine2022: the docstring gives only the reference and a classification by |q|; the object is taken to be the Horodecki 1999 '
+    'family 2/7 |Psi+><Psi+| + alpha/7 sigma_+ + (5-alpha)/7 sigma_- at alpha = 5/2 + q; q -> -q is the exchange of the parties, so either '
+    'orientation is accepted but must be the same for every q (observed orientation is a counter)',
+    'realignment witness of the 3x3 family: judged only where the excess of the reference state over 1 is above 4 tolerances (a >= ~1e-9 from '
+    'either end); the 2x4 family is not detected by realignment and only its PPT property and matrix are checked',
+    'closed-form EOF / GME of Werner and isotropic states for d >= 3: numqi has no deterministic generic routine for mixed states beyond two '
+    'qubits (only gradient-descent upper-bound models), so for d >= 3 they are compared with the literature formulas on measured overlaps, with '
+    'get_relative_entropy (REE) and with get_eof_pure at the pure end point Isotropic(d, 1) only',
+    'np.int8 / np.uint8 size arguments whose result dimension (2**n, d*d, 4**n) exceeds the range of the type are recorded, not judged',
     'real parameters off the grids, dimensions above the stated bounds are not covered',
 ]
 CHUNK = 1
@@ -151,6 +167,70 @@ def ref_swap(d):
         for j in range(d):
             F[i * d + j, j * d + i] = 1.0
     return F
+
+
+def ref_ketbra(dims, terms):
+    """sum of c |i j><k l| over terms (c, (i, j), (k, l)), index = i*dB + j, by an explicit loop"""
+    dA, dB = dims
+    rho = np.zeros((dA * dB, dA * dB))
+    for c, (i, j), (k, l) in terms:
+        rho[i * dB + j, k * dB + l] += c
+    return rho
+
+
+def ref_pure_terms(weight, amp):
+    """terms of weight * |psi><psi| for |psi> = sum amp[(i,j)] |i j>"""
+    return [(weight * x * y, ij, kl) for ij, x in amp.items() for kl, y in amp.items()]
+
+
+def ref_bes3x3(a):
+    """P. Horodecki, Phys. Lett. A 232 (1997) 333, section 4.1, in the paper's convex form (not the printed matrix):
+    rho_a = 8a/(8a+1) rho_insep + 1/(8a+1) |Psi_a><Psi_a|,  rho_insep = 3/8 P_+ + 1/8 Q,  P_+ projector on (|00>+|11>+|22>)/sqrt3,
+    Q = 1 - sum_i |ii><ii| - |20><20|,  |Psi_a> = |2> (sqrt((1+a)/2) |0> + sqrt((1-a)/2) |2>)"""
+    w = 8 * a / (8 * a + 1)
+    terms = ref_pure_terms(w * 3 / 8, {(i, i): 1 / math.sqrt(3) for i in range(3)})
+    terms += [(w / 8, (i, j), (i, j)) for i in range(3) for j in range(3) if i != j and (i, j) != (2, 0)]
+    terms += ref_pure_terms(1 / (8 * a + 1), {(2, 0): math.sqrt((1 + a) / 2), (2, 2): math.sqrt(max(0.0, (1 - a) / 2))})
+    return ref_ketbra((3, 3), terms)
+
+
+def ref_bes2x4(b):
+    """same paper, section 4.2: sigma_b = 7b/(7b+1) rho_insep + 1/(7b+1) |Phi_b><Phi_b|,
+    rho_insep = 2/7 sum_{i=1..3} |Psi_i><Psi_i| + 1/7 |03><03|,  |Psi_i> = (|0,i-1> + |1,i>)/sqrt2,
+    |Phi_b> = |1> (sqrt((1+b)/2) |0> + sqrt((1-b)/2) |3>)"""
+    w = 7 * b / (7 * b + 1)
+    terms = []
+    for i in (1, 2, 3):
+        terms += ref_pure_terms(w * 2 / 7, {(0, i - 1): 1 / math.sqrt(2), (1, i): 1 / math.sqrt(2)})
+    terms.append((w / 7, (0, 3), (0, 3)))
+    terms += ref_pure_terms(1 / (7 * b + 1), {(1, 0): math.sqrt((1 + b) / 2), (1, 3): math.sqrt(max(0.0, (1 - b) / 2))})
+    return ref_ketbra((2, 4), terms)
+
+
+def ref_horodecki1999(alpha, swap):
+    """P., M. and R. Horodecki, PRL 82 (1999) 1056 (the family used by Girardin et al. 2022 with alpha = 5/2 + q):
+    rho_alpha = 2/7 |Psi+><Psi+| + alpha/7 sigma_+ + (5-alpha)/7 sigma_-,  sigma_+ = (|01><01| + |12><12| + |20><20|)/3,
+    sigma_- = (|10><10| + |21><21| + |02><02|)/3.  swap=True exchanges the two parties (sigma_+ <-> sigma_-)."""
+    terms = ref_pure_terms(2 / 7, {(i, i): 1 / math.sqrt(3) for i in range(3)})
+    for i in range(3):
+        p, m = (i, (i + 1) % 3), ((i + 1) % 3, i)
+        if swap:
+            p, m = m, p
+        terms.append((alpha / 21, p, p))
+        terms.append(((5 - alpha) / 21, m, m))
+    return ref_ketbra((3, 3), terms)
+
+
+def ref_realign_norm(rho, dims):
+    """trace norm of the realigned matrix R[(i,k),(j,l)] = rho[(i,j),(k,l)] (computable cross norm; <= 1 on separable states)"""
+    dA, dB = dims
+    R = np.zeros((dA * dA, dB * dB), dtype=np.complex128)
+    for i in range(dA):
+        for j in range(dB):
+            for k in range(dA):
+                for l in range(dB):
+                    R[i * dA + k, j * dB + l] = rho[i * dB + j, k * dB + l]
+    return float(np.linalg.svd(R, compute_uv=False).sum())
 
 
 def ref_pt(rho, dims, subset):
@@ -325,6 +405,14 @@ def _flat_arrays(x):
     return []
 
 
+def _call_detail(args, kwargs):
+    """violation detail of a failed call: the caller's detail plus the positional arguments (the caller's detail may itself have an
+    'args' entry - the UPB size argument)"""
+    det = dict(kwargs)
+    det['call_args' if 'args' in det else 'args'] = [arr_detail(a) for a in args]
+    return det
+
+
 def call(out, key0, fn, *args, admissible=True, fresh=True, **kwargs):
     """call a numqi function; classify exceptions (DESIGN 3.3). Returns (ok, value)."""
     out.trans()
@@ -348,26 +436,43 @@ def call(out, key0, fn, *args, admissible=True, fresh=True, **kwargs):
                 if not same and not getattr(fn, '_c18_random', False):
                     out.violation(key0 + '/result_shares_state_between_calls',
                                   'a second call with the same arguments returns a different object after the first result was modified in place by the caller',
-                                  args=[arr_detail(a) for a in args], **kwargs)
+                                  **_call_detail(args, kwargs))
                 return True, r1
         return True, r0
     except AssertionError as e:
         if core.is_precondition_assert(e) and not admissible:
             out.count('rejected_by_precondition')
             return False, None
-        out.violation(key0 + '/AssertionError', 'AssertionError on an admissible input: %s' % (str(e)[:100],), args=[arr_detail(a) for a in args], **kwargs)
+        out.violation(key0 + '/AssertionError', 'AssertionError on an admissible input: %s' % (str(e)[:100],), **_call_detail(args, kwargs))
         return False, None
     except Exception as e:
         if not admissible:
             out.count('inadmissible_raised_' + type(e).__name__)
             return False, None
         out.violation('%s/%s' % (key0, type(e).__name__), '%s on an admissible input: %s' % (type(e).__name__, str(e)[:200]),
-                      args=[arr_detail(a) for a in args], **kwargs)
+                      **_call_detail(args, kwargs))
         return False, None
 
 
 def int_variants(n):
-    return [('int', int(n)), ('np.int64', np.int64(n))]
+    return [('int', int(n)), ('np.int64', np.int64(n)), ('np.int32', np.int32(n))]
+
+
+SMALL_INT_TYPES = (('np.int8', np.int8), ('np.uint8', np.uint8))
+
+
+def record_small_int(out, label, fn, n, result_dim, expected):
+    """np.int8 / np.uint8 size arguments whose RESULT dimension exceeds the range of the type (2**n, d*d, 4**n wrap around inside numpy
+    scalar arithmetic). Recorded only (counters), never judged: the docstrings say `int` and the property does not cover them."""
+    for tname, t in SMALL_INT_TYPES:
+        if n > np.iinfo(t).max or result_dim <= np.iinfo(t).max:
+            continue
+        try:
+            r = fn(t(n))
+            same = isinstance(r, np.ndarray) and isinstance(expected, np.ndarray) and r.shape == expected.shape and np.array_equal(r, expected)
+            out.count('small_int_recorded[%s(%s)]:%s' % (label, tname, 'same_as_int' if same else 'differs_from_int'))
+        except Exception as e:
+            out.count('small_int_recorded[%s(%s)]:raised_%s' % (label, tname, type(e).__name__))
 
 
 # ------------------------------------------------------------------ ket constructors
@@ -389,6 +494,17 @@ def run_ket(case, out, env):
                 if np.abs(psi - ref).max() > TOL_VEC:
                     out.violation(key0 + '/wrong_state', '%s(%d) is not the %s state' % (fn, n, fn), n=n, observed=psi, expected=ref)
                 out.outcome((fn, psi), nontrivial=nontriv(psi))
+                if tname == 'int':
+                    record_small_int(out, fn, getattr(S, fn), n, 2 ** n, psi)
+        if fn == 'GHZ' and case['nmax'] >= 2:
+            # default argument: GHZ() is documented as n=2
+            out.state()
+            ok, psi = call(out, 'ket/GHZ', lambda: S.GHZ())
+            if ok and check_ket(out, 'ket/GHZ', psi, 4, n='default'):
+                if np.abs(psi - ref_GHZ(2)).max() > TOL_VEC:
+                    out.violation('ket/GHZ/default_differs', 'GHZ() differs from GHZ(2)', observed=psi, expected=ref_GHZ(2))
+                out.count('default_argument_call')
+                out.trace()
         out.sample = {'kind': 'ket', 'fn': fn, 'n': 3, 'expected': (ref_W(3) if fn == 'W' else ref_GHZ(3)).tolist()}
     elif fn == 'Bell':
         s = 1 / math.sqrt(2)
@@ -431,6 +547,8 @@ def run_ket(case, out, env):
                 if np.abs(m @ m.conj().T - np.eye(d) / d).max() > TOL_VEC:
                     out.violation(key0 + '/reduced_state_not_maximally_mixed', 'Tr_B |psi><psi| != 1/d', d=d, observed=psi)
                 out.outcome(('maxent', psi), nontrivial=nontriv(psi))
+                if tname == 'int':
+                    record_small_int(out, 'maximally_entangled_state', S.maximally_entangled_state, d, d * d, psi)
         out.sample = {'kind': 'ket', 'fn': 'maximally_entangled_state', 'd': 2, 'expected': ref_maxent(2).tolist()}
     elif fn == 'coherent':
         for d in range(1, case['dmax'] + 1):
@@ -469,7 +587,7 @@ def run_ket(case, out, env):
         allv = []
         for kl in all_klists(dim, n):
             ref, cnt = ref_dicke(kl)
-            for tname, args in (('int', tuple(int(k) for k in kl)), ('np.int64', tuple(np.int64(k) for k in kl))):
+            for tname, args in (('int', tuple(int(k) for k in kl)), ('np.int64', tuple(np.int64(k) for k in kl)), ('np.int32', tuple(np.int32(k) for k in kl))):
                 out.state()
                 ok, psi = call(out, key0, lambda: S.Dicke(*args))
                 if not ok or not check_ket(out, key0, psi, dim ** n, klist=list(kl), argtype=tname):
@@ -606,7 +724,7 @@ def run_dm(case, out, env):
         phi = ref_maxent(d)
         for a in make_grid(lo, hi, [t, 0.0], case['nuni']):
             for tname, aa in float_variants(a):
-                for dname, dd in int_variants(d)[:(2 if tname == 'float' else 1)]:
+                for dname, dd in int_variants(d)[:(3 if tname == 'float' else 1)]:
                     out.state()
                     ok, rho = call(out, key0, ctor, dd, aa)
                     if not ok or not check_dm(out, key0, rho, D, d=d, alpha=a, argtype=tname):
@@ -642,11 +760,14 @@ def run_dm(case, out, env):
                 if np.abs(rho - np.eye(d * d) / (d * d)).max() > TOL_VEC:
                     out.violation(key0 + '/wrong_state', 'not identity/d^2', d=d)
                 out.outcome(('mixed', rho), nontrivial=d > 1)
+                if tname == 'int':
+                    record_small_int(out, 'maximally_mixed_state', S.maximally_mixed_state, d, d * d, rho)
         out.sample = {'kind': 'dm', 'fn': 'maximally_mixed_state', 'd': 2, 'expected_trace': 1}
     elif fn == 'Antoine':
         key0 = 'dm/get_2qutrit_Antoine2022'
         bandp = 4 * tol_eig(9) * 21
         grid = make_grid(-2.5, 2.5, [-1.5, -0.5, 0.0, 0.5, 1.5], case['nuni'])
+        orient = set()
         for q in grid:
             for tname, qq in float_variants(q) + ([('int', int(q))] if float(q).is_integer() else []):
                 out.state()
@@ -658,12 +779,25 @@ def run_dm(case, out, env):
                     out.violation(key0 + '/npt_in_documented_ppt_range', '|q|=%r <= 1.5 but the partial transpose has eigenvalue %.3g' % (abs(q), lam), q=q)
                 if abs(q) >= 1.5 + bandp and lam >= -tol_eig(9):
                     out.violation(key0 + '/ppt_in_documented_npt_range', '|q|=%r > 1.5 (documented NPT) but the state is PPT' % (abs(q),), q=q)
+                # the named object: the Horodecki 1999 family at alpha = 5/2 + q; the docstring classifies by |q| only and q -> -q is the
+                # exchange of the two parties, so either orientation is accepted, but the same one for every q
+                m = [bool(np.abs(rho - ref_horodecki1999(2.5 + q, sw)).max() <= TOL_VEC) for sw in (False, True)]
+                if not any(m):
+                    out.violation(key0 + '/wrong_state', 'get_2qutrit_Antoine2022(%r) is not 2/7 |Psi+><Psi+| + alpha/7 sigma_+ + (5-alpha)/7 sigma_- '
+                                  'with alpha = 5/2 + q in either party order (deviation %.3g)' % (q, min(np.abs(rho - ref_horodecki1999(2.5 + q, sw)).max() for sw in (False, True))),
+                                  q=q, observed=rho, expected=ref_horodecki1999(2.5 + q, True))
+                elif m[0] != m[1]:
+                    orient.add('sigma_plus_weight_(5/2-q)/7' if m[1] else 'sigma_plus_weight_(5/2+q)/7')
                 out.outcome(('Antoine', rho), nontrivial=True)
         for bad in (-2.5 - 1e-9, 2.5 + 1e-9):
             out.state()
             ok, _ = call(out, key0, S.get_2qutrit_Antoine2022, bad, admissible=False)
             if ok:
                 out.count('inadmissible_accepted')
+        if len(orient) > 1:
+            out.violation(key0 + '/inconsistent_party_order', 'the weights of sigma_+ / sigma_- are exchanged for some q only', orientations=sorted(orient))
+        out.count('antoine_orientation[%s]' % ','.join(sorted(orient)) if orient else 'antoine_orientation[undetermined]')
+        out.trace()
         out.sample = {'kind': 'dm', 'fn': 'get_2qutrit_Antoine2022', 'grid_size': len(grid)}
     elif fn in ('bes2x4', 'bes3x3'):
         dims = (2, 4) if fn == 'bes2x4' else (3, 3)
@@ -683,6 +817,29 @@ def run_dm(case, out, env):
                     lam = min_eig(ref_pt(rho, dims, sub))
                     if lam < -tol_eig(D):
                         out.violation(key0 + '/not_ppt', 'parameter %r: partial transpose has eigenvalue %.3g < -%.2g' % (a, lam, tol_eig(D)), a=a, observed=rho)
+                # the named object (paper's convex decomposition, explicit |ij><kl| loops). The printed matrix contains sqrt(1 - a^2)/2:
+                # a*a carries an absolute rounding error eps/2, which the square root amplifies by 1/(2 sqrt(1 - a^2)); the entry is
+                # then divided by 2 (D a + 1):  kappa = 8 + 1/(8 sqrt(1 - a^2) (D a + 1))  (no amplification at a = 1, where 1 - a*a = 0 exactly)
+                ref = ref_bes2x4(a) if fn == 'bes2x4' else ref_bes3x3(a)
+                kap = 8 + (1 / (8 * math.sqrt(1 - a * a) * ((D - 1) * a + 1)) if a * a < 1 else 0.0)
+                dev = float(np.abs(rho - ref).max())
+                if dev > C_SAFE * EPS * kap:
+                    out.violation(key0 + '/wrong_state', '%s(%r) differs from the state of Horodecki 1997 (convex form of the paper) by %.3g > %.2g' % (name, a, dev, C_SAFE * EPS * kap),
+                                  a=a, observed=rho, expected=ref)
+                if fn == 'bes3x3':
+                    # realignment (computable cross norm) witness: the family is entangled for 0 < a < 1 and the realigned matrix has trace
+                    # norm > 1 there (1.0005 .. 1.003 in the bulk, excess ~ 0.05 a and ~ 0.005 (1 - a) at the ends). Singular values are
+                    # backward stable: |delta sigma_i| <= D eps ||R||_2 with ||R||_2 <= 1, summed over D of them: kappa = D^2. The dead band
+                    # (excess of the reference state below 4 tolerances) is counted, not judged.
+                    tol_nuc = C_SAFE * EPS * D * D
+                    if 0 < a < 1 and ref_realign_norm(ref, dims) - 1 > 4 * tol_nuc:
+                        nuc = ref_realign_norm(rho, dims)
+                        out.count('realignment_witness_checked')
+                        if not nuc > 1 + tol_nuc:
+                            out.violation(key0 + '/realignment_witness_lost', 'parameter %r: trace norm of the realigned matrix is %.17g, must exceed 1 (entangled for 0<a<1)' % (a, nuc),
+                                          a=a, observed=rho)
+                    else:
+                        out.count('realignment_witness_dead_band_or_end_point')
                 out.outcome((fn, rho), nontrivial=True)
         for bad in (-1e-9, 1 + 1e-9):
             out.state()
@@ -782,6 +939,24 @@ def run_closed(case, out, env):
                 out.trace()
             except Exception as e:
                 out.violation('closed/get_relative_entropy/%s' % type(e).__name__, repr(e)[:200], fam=fam, d=d, alpha=a)
+        if fam == 'Isotropic' and a == hi and ('eof', a) in scal and math.isfinite(scal[('eof', a)]):
+            # pure end point alpha = 1, every d: the only generic (deterministic) routine for d >= 3 is get_eof_pure on the ket.
+            # entropy of the reduced state through eigvalsh: eigenvalue error d eps, |d(-x log x)| <= (1 + log d) per eigenvalue, d of them
+            out.trans()
+            try:
+                w, V = np.linalg.eigh((rho + rho.conj().T) / 2)
+                g = float(numqi.entangle.get_eof_pure(V[:, -1].reshape(d, d)))
+                tolp = C_SAFE * EPS * d * d * (1 + math.log(d)) + TOL_CLOSED
+                if not math.isfinite(g):
+                    out.count('generic_routine_nonfinite[get_eof_pure] (C05/C13 territory)')
+                elif abs(w[-1] - 1) > tol_eig(D):
+                    out.violation('dm/Isotropic/not_pure_at_alpha_1', 'Isotropic(%d, 1) has largest eigenvalue %.17g' % (d, w[-1]), d=d)
+                elif abs(g - scal[('eof', a)]) > tolp:
+                    out.violation('closed/get_Isotropic_eof/differs_from_get_eof_pure', 'closed form %.17g at alpha=1, get_eof_pure(ket) = %.17g' % (scal[('eof', a)], g), d=d, alpha=a)
+                out.count('eof_pure_end_point_checked')
+                out.trace()
+            except Exception as e:
+                out.violation('closed/get_eof_pure/%s' % type(e).__name__, repr(e)[:200], fam=fam, d=d, alpha=a)
         if d == 2 and pos != 'band':
             for q, gname, gfun, rfun in (('eof', 'get_eof_2qubit', numqi.entangle.get_eof_2qubit, ref_conc_to_eof),
                                          ('GME', 'get_gme_2qubit', numqi.entangle.get_gme_2qubit, ref_conc_to_gme)):
@@ -1057,6 +1232,36 @@ def check_upb(out, numqi, kind, args, tag, local, bes, full):
     return P
 
 
+def check_upb_entry_points(out, numqi, local, pr, bes, **det):
+    """numqi.entangle.get_upb_product / upb_to_bes called directly (product form and list form) against what load_upb returned
+    with return_product / return_bes. Tolerance as for the BES in check_upb: (N + 2) terms per entry, normalised by D - N."""
+    E = numqi.entangle
+    N, D = (pr.shape if isinstance(pr, np.ndarray) and pr.ndim == 2 else ref_product(local).shape)
+    tolb = C_SAFE * EPS * (N + 2) / (D - N) * 4
+    out.state()
+    ok, gp = call(out, 'upb/get_upb_product', E.get_upb_product, local, **det)
+    if ok:
+        if not (isinstance(gp, np.ndarray) and gp.shape == (N, D)):
+            out.violation('upb/get_upb_product/shape', 'returned %s, documented (N, prod dims) = %s' % (getattr(gp, 'shape', type(gp).__name__), (N, D)), **det)
+        elif isinstance(pr, np.ndarray) and pr.shape == gp.shape and np.abs(gp - pr).max() > C_SAFE * EPS * 4:
+            out.violation('upb/get_upb_product/differs_from_return_product', 'get_upb_product(load_upb(..)) differs from load_upb(.., return_product=True) by %.3g' % np.abs(gp - pr).max(), **det)
+        elif np.abs(gp - ref_product(local)).max() > C_SAFE * EPS * 4:
+            out.violation('upb/get_upb_product/not_kron', 'differs from the Kronecker products of the local vectors by %.3g' % np.abs(gp - ref_product(local)).max(), **det)
+    forms = [('list_form', local)] + ([('product_form', pr)] if isinstance(pr, np.ndarray) and pr.ndim == 2 else [])
+    for fname, arg in forms:
+        out.state()
+        ok, b2 = call(out, 'upb/upb_to_bes', E.upb_to_bes, arg, form=fname, **det)
+        if not ok:
+            continue
+        if not (isinstance(b2, np.ndarray) and b2.shape == (D, D) and np.all(np.isfinite(b2))):
+            out.violation('upb/upb_to_bes/shape', '%s: returned %s, expected a finite (%d,%d) array' % (fname, getattr(b2, 'shape', type(b2).__name__), D, D), **det)
+        elif np.abs(b2 - bes).max() > tolb:
+            out.violation('upb/upb_to_bes/%s_differs_from_return_bes' % fname, 'upb_to_bes(%s) differs from load_upb(.., return_bes=True) by %.3g' % (fname, np.abs(b2 - bes).max()), **det)
+        else:
+            out.count('upb_entry_point_agrees[%s]' % fname)
+    out.trace()
+
+
 def run_upb(case, out, env):
     import numqi
     load = numqi.entangle.load_upb
@@ -1074,7 +1279,10 @@ def run_upb(case, out, env):
     det = {'kind': kind, 'args': args}
     base = None
     for spelling in (kind, kind.upper(), kind.capitalize()):
-        for avar in ([args] if args is None else ([args, np.int64(args)] if isinstance(args, int) else [args, list(args), np.array(args)])):
+        avars = [args] if args is None else ([args, np.int64(args)] if isinstance(args, int) else [args, list(args), np.array(args)])
+        if args is not None and spelling == kind:
+            avars.append(np.int32(args) if isinstance(args, int) else tuple(np.int32(x) for x in args))
+        for avar in avars:
             res = {}
             for rp in (False, True):
                 for rb in (False, True):
@@ -1104,6 +1312,8 @@ def run_upb(case, out, env):
             pb = res[(True, True)]
             if not (isinstance(pb, tuple) and len(pb) == 2 and isinstance(pb[0], np.ndarray) and np.array_equal(pb[0], pr) and np.array_equal(pb[1], bes)):
                 out.violation(key0 + '/return_product_and_bes_inconsistent', 'return_product=True,return_bes=True differs from the separate calls', **det)
+            if spelling == kind and isinstance(bes, np.ndarray) and bes.shape == (P.shape[1], P.shape[1]):
+                check_upb_entry_points(out, numqi, local, pr, bes, **det)
             if first:
                 base = (local, bes)
                 out.outcome(('upb', kind, repr(args), bes), nontrivial=True)
@@ -1111,6 +1321,21 @@ def run_upb(case, out, env):
                 if not (all(np.array_equal(a, b) for a, b in zip(base[0], local)) and np.array_equal(base[1], bes)):
                     out.violation(key0 + '/spelling_or_argtype_changes_result', 'kind=%r args=%r gives a different UPB than kind=%r' % (spelling, avar, kind), **det)
             out.trace()
+    if args is None and base is not None:
+        # default argument: load_upb(kind) without `args` for the size-free kinds
+        for rb in (False, True):
+            out.state()
+            ok, r = call(out, key0, lambda: load(kind, return_bes=rb), **det)
+            if not ok:
+                continue
+            l3 = r[0] if rb else r
+            same = isinstance(l3, (list, tuple)) and len(l3) == len(base[0]) and all(isinstance(a, np.ndarray) and np.array_equal(a, b) for a, b in zip(l3, base[0]))
+            if rb:
+                same = same and isinstance(r, tuple) and len(r) == 2 and isinstance(r[1], np.ndarray) and np.array_equal(r[1], base[1])
+            if not same:
+                out.violation(key0 + '/default_args_differs', 'load_upb(%r, return_bes=%r) without args differs from args=None' % (kind, rb), **det)
+            out.count('default_argument_call')
+        out.trace()
     out.sample = {'kind': 'upb', 'upb': kind, 'args': args}
 
 
@@ -1142,6 +1367,8 @@ def run_sixparam(case, out, env):
                         continue
                     check_upb(out, numqi, 'sixparam', para, 'sixparam', r[0], r[1], full=True)
                     out.outcome(('sixparam', r[1]), nontrivial=True)
+                    if full and isinstance(r[1], np.ndarray) and r[1].shape == (9, 9):
+                        check_upb_entry_points(out, numqi, r[0], None, r[1], para=list(para))
                     if full:
                         out.state()
                         ok, r2 = call(out, key0, lambda: load('sixparam', np.array(para), return_bes=True, ignore_warning=True), para=list(para))
@@ -1194,6 +1421,14 @@ def run_tetra(case, out, env):
     if np.linalg.matrix_rank(M, tol=1e-9 / D) != 4 ** n:
         out.violation(key0 + '/not_informationally_complete', 'the elements do not span the operator space', n=n)
     if n == 1:
+        # default argument: get_tetrahedron_POVM() is documented as num_qubit=1
+        out.state()
+        okd, Ed = call(out, key0, lambda: numqi.utils.get_tetrahedron_POVM())
+        if okd:
+            if not (isinstance(Ed, np.ndarray) and Ed.shape == E.shape and np.abs(Ed - E).max() <= tol):
+                out.violation(key0 + '/default_differs', 'get_tetrahedron_POVM() differs from get_tetrahedron_POVM(1)', observed=arr_detail(Ed))
+            out.count('default_argument_call')
+    if n == 1:
         sig = [np.array([[0, 1], [1, 0]]), np.array([[0, -1j], [1j, 0]]), np.array([[1, 0], [0, -1]])]
         blo = np.array([[np.trace(E[i] @ s).real * 2 for s in sig] for i in range(4)])   # E = (1 + n.sigma)/4 -> Tr(E s) = n/2
         Gm = blo @ blo.T
@@ -1216,6 +1451,13 @@ def run_tetra(case, out, env):
             if len(seen) != 4 ** n:
                 out.violation(key0 + '/duplicate_elements', 'only %d distinct product elements among %d' % (len(seen), 4 ** n), n=n)
         out.trace()
+    # numpy integer types for num_qubit: same object as for the python int
+    for tname, nn in int_variants(n)[1:]:
+        out.state()
+        okv, Ev = call(out, key0, numqi.utils.get_tetrahedron_POVM, nn)
+        if okv and not (isinstance(Ev, np.ndarray) and Ev.shape == E.shape and np.array_equal(Ev, E)):
+            out.violation(key0 + '/argtype_changes_result', 'num_qubit=%s(%d) gives a different result than the python int' % (tname, n), n=n, argtype=tname)
+    record_small_int(out, 'get_tetrahedron_POVM', numqi.utils.get_tetrahedron_POVM, n, 4 ** n, E)
     out.outcome(('tetra', n, E), nontrivial=True)
     out.sample = {'kind': 'tetra', 'n': n}
 
@@ -1297,6 +1539,13 @@ def run_cheb(case, out, env):
                         out.violation(key0 + '/not_chebyshev_basis', 'basis %d is not the Chebyshev-polynomial basis (row overlap %.6g with the cosine formula)' % (bi, np.abs(ph).min()), basis=bi, **det)
                 out.outcome(('cheb', d, wc, proj), nontrivial=True)
                 out.trace()
+                if tname == 'float' and al in (0.0, 1.0):
+                    # numpy integer types for dim_qudit: same object as for the python int
+                    for iname, dd in int_variants(d)[1:]:
+                        out.state()
+                        okv, rv = call(out, key0, lambda: fn(dd, aa, with_computational_basis=wc), **det)
+                        if okv and not (isinstance(rv, np.ndarray) and rv.shape == proj.shape and np.array_equal(rv, proj)):
+                            out.violation(key0 + '/argtype_changes_result', 'dim_qudit=%s(%d) gives a different result than the python int' % (iname, d), argtype=iname, **det)
     out.sample = {'kind': 'cheb', 'd': d, 'alphas': alphas[:4]}
 
 
@@ -1331,6 +1580,11 @@ def run_gme(case, out, env):
                 if k in (0, n) and x != 0:
                     out.violation(key0 + '/product_state_nonzero', 'Dicke(%d,%d) is a product state but GME = %r' % (n, k, x), n=n, k=k)
                 out.outcome(('dickeGME', n, k, x), nontrivial=x != 0)
+                for (tname, nn), (_, kk) in zip(int_variants(n)[1:], int_variants(k)[1:]):
+                    out.state()
+                    okv, vv = call(out, key0, S.get_qubit_dicke_state_GME, nn, kk)
+                    if okv and not (as_scalar(vv) is not None and as_scalar(vv) == x):
+                        out.violation(key0 + '/argtype_changes_result', 'get_qubit_dicke_state_GME(%d,%d) with %s arguments gives %r, python int gives %r' % (n, k, tname, vv, x), n=n, k=k, argtype=tname)
         out.sample = {'kind': 'gme', 'fn': 'dicke', 'n': 3, 'k': 1, 'expected': 5 / 9}
     else:
         key0 = 'gme/get_Wtype_state_GME'
